@@ -548,5 +548,32 @@ class RandomStream(HistoryStream):
         return out
 
 
+class FalsyNsStream(HistoryStream):
+    """A namespace that is a falsy value (the empty string) is still a namespace: it selects its own templates and
+    its own cache entries, by keyword argument (which takes priority over the context) and by render context.
+    Added after seeded change C23-1 (cache_key testing truthiness instead of presence) was missed."""
+
+    name = "falsyns"
+    exhaustive = True
+
+    def cases(self, ctx):
+        L = ctx.scale(3, 4)
+        names, nss = ["a"], ["", "x"]
+        files = files_for("ns", names, nss)
+        pre = [edit(f, True, 0) for f in files]
+        reqs = [req("a", kw, cx, mode, None) for kw, cx in (("", None), ("", ["x"]), (None, [""]), (None, ["x"]), ("x", [""]), (None, None)) for mode in ("sync", "async")]
+        edits = [edit("/a", True), edit("x/a", True)]
+        out = []
+        for n in range(1, L + 1):
+            for seq in itertools.product(reqs + edits, repeat=n):
+                if seq[-1][0] == "edit" or sum(1 for e in seq if e[0] == "req") < min(n, 2):
+                    continue
+                if n == L and len({repr(e[1:4]) for e in seq if e[0] == "req"}) < 2:
+                    continue
+                for cap in (1, 3):
+                    out.append({"kind": "ns", "cap": cap, "auto_reload": True, "ns_key": True, "eg": [], "events": number_edits(pre, seq)})
+        return out
+
+
 def streams(ctx):
-    return [SeqStream(), SlashStream(), RandomStream()]
+    return [SeqStream(), SlashStream(), RandomStream(), FalsyNsStream()]
